@@ -297,6 +297,12 @@ def check_track(AU, A, loads, counter0):
             if o['ans'] != 5 or o['table'] != table:
                 return 'acu_track_too_long_accepted', 'a %d-point load was not refused (answer %d)' % (n, o['ans'])
             continue
+        if r['start'] is None:
+            # mjd_to_date cannot represent this start time (it can round a fraction of a day up to
+            # 24:00:00): outside the domain of the claim, which needs a start time (C17: h_start)
+            if o['ans'] == 1:
+                return 'acu_track_unrepresentable_start_accepted', 'load accepted although mjd_to_date raises'
+            continue
         if o['ans'] != 1:
             return 'acu_track_in_domain_refused', \
                 'in-domain %s of %d points (table had %d) answered %d instead of 1' % (
@@ -437,7 +443,8 @@ def oracle(ctx):
                 seen.add(bad[0])
                 ctx.fail(bad[0], bad[1], dict(counter=counter, cmds=[list(c) for c in cmds], prev=prev))
         nt = 0
-        for loads in track_scenarios(ctx, ctx.n(120, 2000)):
+        scen = [scenario_from_json(js['loads']) for _, js in c14.corpus_files('C10') if 'loads' in js]
+        for loads in scen + track_scenarios(ctx, ctx.n(120, 2000)):
             c0 = rng.randrange(1, 2 ** 31)
             bad = check_track(AU, A, loads, c0)
             nt += len(loads)
